@@ -81,6 +81,30 @@ def tlc_stats(out):
     return 0, 0
 
 
+_dtable = []
+
+
+def dispatch_table_file():
+    """entry -> (resolver macro, candidate families) of /repo's working tree as a JSON file for DispatchLadder"""
+    import disp_table
+    with _lock:
+        if not _dtable:
+            _dtable.append(None)
+            first = True
+        else:
+            first = False
+    if first:
+        d = os.path.join(OUT, "run", str(os.getpid()))
+        os.makedirs(d, exist_ok=True)
+        p = os.path.join(d, "dtable.json")
+        with open(p, "w") as fp:
+            json.dump(disp_table.table(), fp)
+        _dtable[0] = p
+    while _dtable[0] is None:
+        time.sleep(0.05)
+    return _dtable[0]
+
+
 def validate_trace(trace_spec, trace_path, env=None, timeout=1100, dfs=False):
     """Validate one ndjson trace with spec/<trace_spec>.tla. Returns dict(consumed, events, viol, tlc_s, states)."""
     res = trace_path + ".result.json"
@@ -89,6 +113,8 @@ def validate_trace(trace_spec, trace_path, env=None, timeout=1100, dfs=False):
     e = {"TRACE": trace_path, "RESULT": res}
     if env:
         e.update(env)
+    if trace_spec == "TraceDispatch" and "DTABLE" not in e:
+        e["DTABLE"] = dispatch_table_file()
     rc, out, dt = tlc(trace_spec, env=e, workers=1, timeout=timeout, dfs=dfs)
     if not os.path.exists(res):
         raise MachineryError("trace validation with %s produced no result (rc=%d):\n%s" % (trace_spec, rc, out[-3000:]))
